@@ -162,15 +162,17 @@ Definition uf_abort (s : uf) : uf * list nat :=
   ({| u_abort := true; u_data := u_data s; u_tellg := u_tellg s; u_tellp := u_tellp s; u_gcount := u_gcount s;
       u_fsz := u_fsz s; u_buf := u_buf s; u_rd := u_rd s; u_dcs := u_dcs s |}, [CVU_tellg; CVU_tellp]).
 
-(* ---- dropOldData: at most the front container, and only if it lies wholly behind tellg, tellp and the declared end ---- *)
-Definition uf_drop (s : uf) : uf :=
-  match u_data s with
-  | [] => s
-  | c :: r =>
-      if (u_tellg s <? c_end c) || (u_tellp s <? c_end c) || (u_fsz s <? c_end c) then s
-      else {| u_abort := u_abort s; u_data := r; u_tellg := u_tellg s; u_tellp := u_tellp s; u_gcount := u_gcount s;
-              u_fsz := u_fsz s; u_buf := u_buf s; u_rd := u_rd s; u_dcs := u_dcs s |}
+(* ---- dropOldData: every front container that lies wholly behind tellg, tellp and the declared end ---- *)
+Fixpoint drop_all (d : list cont) (tg tp fsz : Z) : list cont :=
+  match d with
+  | [] => []
+  | c :: r => if (tg <? c_end c) || (tp <? c_end c) || (fsz <? c_end c) then d else drop_all r tg tp fsz
   end.
+
+Definition uf_drop (s : uf) : uf :=
+  {| u_abort := u_abort s; u_data := drop_all (u_data s) (u_tellg s) (u_tellp s) (u_fsz s);
+     u_tellg := u_tellg s; u_tellp := u_tellp s; u_gcount := u_gcount s;
+     u_fsz := u_fsz s; u_buf := u_buf s; u_rd := u_rd s; u_dcs := u_dcs s |}.
 
 (* ---- the alphabet of the property ---- *)
 Inductive uop :=
